@@ -199,7 +199,7 @@ Plan minimise(const Plan &p0, Engine *e, const Pred &still_fails, int max_execs,
 // ---------------------------------------------------------------------------------------------------------
 // known findings
 
-struct Known { std::string property, rule, key, status, what, commit; };
+struct Known { std::string property, rule, key, status, what, commit; std::vector<std::string> key_any; };
 
 static std::vector<Known> load_known() {
 	std::vector<Known> v;
@@ -207,13 +207,18 @@ static std::vector<Known> load_known() {
 	if (!js::read_file(verif_dir() + "/known_findings.json", txt) || !js::parse(txt, j)) return v;
 	if (const js::Val *f = j.get("findings")) for (auto &e : f->a) {
 		Known k; k.property = e.gets("property"); k.rule = e.gets("rule"); k.key = e.gets("key"); k.status = e.gets("status"); k.what = e.gets("what"); k.commit = e.gets("commit");
+		if (const js::Val *ka = e.get("key_contains_any")) for (auto &x : ka->a) k.key_any.push_back(x.s);
 		v.push_back(k);
 	}
 	return v;
 }
 
 static const Known *match_known(const std::vector<Known> &ks, const sim::Violation &v) {
-	for (auto &k : ks) if (k.status == "known" && (k.property == v.property || k.property == v.oracle_property) && k.rule == v.rule && (k.key == v.key)) return &k;
+	for (auto &k : ks) if (k.status == "known" && (k.property == v.property || k.property == v.oracle_property) && k.rule == v.rule) {
+		if (k.key == v.key) return &k;
+		// a finding may name several call sites: the class of a run with several injected faults lists all of them
+		for (auto &sub : k.key_any) if (!sub.empty() && v.key.find(sub) != std::string::npos) return &k;
+	}
 	return nullptr;
 }
 
